@@ -421,9 +421,9 @@ def _cli(oi, yi, gi, which):
     old_verbose = Configuration.verbose
     try:
         if which == "scan":
-            cm.scan(FP("/w"), exclude=OPTS[oi], verbose=False)
+            cm.scan(FP("/w"), exclude=(list(OPTS[oi]) if OPTS[oi] is not None else None), verbose=False)     # a copy: the code under test may keep or mutate the list
         else:
-            cm.check([FP("/w")], exclude=OPTS[oi], quiet=True, verbose=False)
+            cm.check([FP("/w")], exclude=(list(OPTS[oi]) if OPTS[oi] is not None else None), quiet=True, verbose=False)
         builtin = list(scn.DEFAULT_EXCLUDES)
     finally:
         Configuration.verbose = old_verbose
